@@ -1,11 +1,15 @@
 """C02 - marshalled bytes are exactly the D-Bus encoding; unencodable values are refused.
 
-Proof: coq/Properties/C02.v. Tie: for every catalogue type (the generic impls instantiated at concrete
-Rust types), both byte orders, prefix lengths 0..15 created by preceding u8 parameters, boundary-biased
-values plus values with one unencodable leaf (NUL in a string, invalid object path / signature, taken
-descriptor): typed API (push_param) and dynamic API (push_old_param of the equivalent Param tree) against the
-extracted model (marshal_t / marshal_p) and, independently of the model, against the extracted
-SPECIFICATION (spec_enc, encodable): bytes produced == spec bytes, refusal <-> not encodable.
+Proof: coq/Properties/C02.v. Tie: for every catalogue type (the generic impls instantiated at concrete Rust types,
+including the [E; N] / [E] / &[E] / Cow / &[u8] / &str flavours, raw f64 with the memcpy path and the 5-tuple), both
+byte orders, prefix lengths 0..15 created by preceding u8 parameters, boundary-biased values plus values with one
+unencodable leaf (NUL in a string, invalid object path / signature, taken descriptor): typed API (push_param), dynamic
+API (push_old_param of the equivalent Param tree built from owned, borrowing or alternating variants) and a
+params::Variant pushed through the typed API, against the extracted model (marshal_t / marshal_param_top) and,
+independently of the model, against the extracted SPECIFICATION (spec_enc, encodable): bytes produced == spec bytes,
+refusal <-> not encodable.  Further streams: "big" (length fields >= 64 KiB, long strings, 64+ containers in one
+array, nesting at the limits) and "inconsistent" (Param trees whose declared element / key / value / variant types
+differ from their contents, structs without fields, nesting beyond 64: refused, nothing written, no panic).
 """
 import os
 
@@ -28,87 +32,182 @@ def fields(line):
     return d
 
 
+PARAM_OPS = ("MP", "MPR", "MPX")
+VARIANT_OPS = ("MV", "MVR", "MVX")
+
+
 def make_cases(ctx, n_per_type, thorough):
+    """dict(stream, op, ty, t, bo, prefix, toks, bad, cls, sig)"""
     r = ctx.sub_rng("c02")
-    cat = wg.catalogue()
-    cases = []            # (api, tyname, bo, prefix, toks, bad)
-    for ty in cat:
+    cases = []
+
+    def add(stream, op, ty, t, bo, prefix, toks, bad=False, cls=None):
+        sig = "y" * prefix + ("v" if op in VARIANT_OPS else (wg.erased(t) if t else ""))
+        cases.append({"stream": stream, "op": op, "ty": ty, "t": t, "bo": bo, "prefix": prefix, "toks": toks, "bad": bad, "cls": cls, "sig": sig})
+
+    for ty in wg.catalogue() + wg.catalogue_marshal_only():
         t = wg.parse_ext(ty)
         for i in range(n_per_type):
             bo = "le" if (i + r.randrange(2)) % 2 == 0 else "be"
             prefix = r.randrange(16) if i else r.choice([0, 4])
             bad = (i % 4 == 3) and wg.count_leaves(t, "sogh") > 0
             toks, isbad = wg.gen_value(r, t, bad=bad)
-            cases.append(("MT", ty, bo, prefix, toks, isbad))
+            add("catalogue", "MT", ty, t, bo, prefix, toks, isbad)
             if i % 2 == 0:
-                cases.append(("MP", ty, bo, prefix, toks, isbad))
+                add("catalogue", PARAM_OPS[(i // 2 + r.randrange(3)) % 3], ty, t, bo, prefix, toks, isbad)
+            if i % 8 == 5 or (t[0] == "v" and i % 4 == 1):
+                # the same value inside a params::Variant pushed through the typed API
+                vt = toks if t[0] == "v" else ["v", wg.erased(t)] + toks
+                add("catalogue", VARIANT_OPS[r.randrange(3)], ty, t, bo, prefix, vt, isbad)
+    rb = ctx.sub_rng("c02-big")
+    monly = set(wg.catalogue_marshal_only())
+    for cls, ty, toks in wg.big_cases(rb, thorough):
+        t = wg.parse_ext(ty)
+        for bo in ("le", "be"):
+            add("big", "MT", ty, t, bo, rb.randrange(16), toks, cls=cls)
+        add("big", rb.choice(PARAM_OPS), ty, t, rb.choice(["le", "be"]), rb.randrange(16), toks, cls=cls)
+    ri = ctx.sub_rng("c02-inconsistent")
+    for cls, toks in wg.inconsistent_trees(ri, 400 if thorough else 60):
+        bo = ri.choice(["le", "be"])
+        prefix = ri.randrange(16)
+        for op in PARAM_OPS:
+            add("inconsistent", op, None, None, bo, prefix, toks, cls=cls)
+        if toks[0] == "v":
+            add("inconsistent", ri.choice(VARIANT_OPS), None, None, bo, prefix, toks, cls=cls)
+        else:
+            tree, _ = wg.parse_tokens(toks, 0)
+            s = wg.tree_sig(tree)
+            if "()" not in s and len(s) < 250:
+                add("inconsistent", ri.choice(VARIANT_OPS), None, None, bo, prefix, ["v", s] + toks, cls=cls)
     return cases
+
+
+def line_of(c, val=None, model=False):
+    v = val if val is not None else " ".join(c["toks"])
+    if c["op"] == "MT":
+        return "MT %s %s %d %s" % (c["ty"], c["bo"], c["prefix"], v)
+    return "%s %s %d %s" % (c["op"], c["bo"], c["prefix"], v)
 
 
 def run(ctx):
     thorough = ctx.tier == "thorough"
-    ctx.rule = ("case = (API typed|Param, catalogue type, byte order, prefix length 0..15 made of preceding u8 parameters, value); "
-                "values are boundary-biased (empty containers, min/max integers, NaNs, multi-byte UTF-8) and one in four has one "
-                "unencodable leaf; non-trivial = the value contains a container or a text/descriptor leaf, or prefix > 0; "
-                "distinct = distinct case lines")
-    ctx.trusted = ["Coq 8.16.1 kernel", "extraction (ExtrOcamlBasic only) + ocaml/wire/driver.ml", "harness/src/bin/wire.rs, wirelib.rs, catalogue.rs",
-                   "Wire/SpecEnc.v as my reading of the D-Bus wire format"]
+    ctx.trusted = ["Coq 8.16.1 kernel", "extraction (ExtrOcamlBasic only) + ocaml/wire/driver.ml", "harness/src/bin/wire.rs, wire_param.rs, wirelib.rs, catalogue.rs",
+                   "Wire/SpecEnc.v as my reading of the D-Bus wire format",
+                   "wiregen.tree_consistent: the side condition of the dynamic API (declared types = content types, no empty struct, "
+                   "at most 64 nested containers) written from the property text"]
     ctx.assumptions = ["usize is 64 bit, native byte order is little endian", "HashMap iteration order is taken from the implementation run and fed to the model",
-                       "strings longer than 2^32-1 bytes are not exercised"]
+                       "strings longer than 2^32-1 bytes are not exercised",
+                       "big stream: where the extracted marshal model is too slow (element-wise paths over thousands of elements) the "
+                       "implementation's bytes are compared with the extracted specification only; counted as big:model-skipped"]
     if not os.environ.get("VERIF_SKIP_PROOF"):
         ctx.try_proof()
     exe = vlib.harness_build(["wire"])["wire"]
     vlib.coq_make(["Wire/Ops.vo"])
     drv = vlib.ocaml_build("wire")
 
-    cases = make_cases(ctx, 60 if thorough else 16, thorough)
-    lines = []
-    for api, ty, bo, prefix, toks, bad in cases:
-        if api == "MT":
-            lines.append("MT %s %s %d %s" % (ty, bo, prefix, " ".join(toks)))
-        else:
-            lines.append("MP %s %d %s" % (bo, prefix, " ".join(toks)))
-    ok, impl, err = vlib.par_run_lines(exe, [], lines, robust=True)
+    n_per_type = 60 if thorough else 16
+    cases = make_cases(ctx, n_per_type, thorough)
+    lines = [line_of(c) for c in cases]
+    small = [i for i, c in enumerate(cases) if c["stream"] != "big"]
+    big = [i for i, c in enumerate(cases) if c["stream"] == "big"]
+    impl = [None] * len(cases)
+    ok, out, err = vlib.par_run_lines(exe, [], [lines[i] for i in small], robust=True)
     if not ok:
         ctx.tie_broken("wire harness crashed", err)
         return
+    for i, o in zip(small, out):
+        impl[i] = o
+    ok, out, err = wg.run_each(exe, [lines[i] for i in big], robust=True, chunk=4)
+    if not ok:
+        ctx.tie_broken("wire harness crashed (big stream)", err)
+        return
+    for i, o in zip(big, out):
+        impl[i] = o
     # second phase: the model gets the value in the order the implementation's maps iterated
     mlines = []
-    for (api, ty, bo, prefix, toks, bad), out in zip(cases, impl):
-        f = fields(out)
-        val = f.get("val", " ".join(toks))
-        if api == "MT":
-            mlines.append("MT %s %s %d %s" % (ty, bo, prefix, val))
-        else:
-            mlines.append("MP %s %d %s" % (bo, prefix, val))
-    ok, model, err = vlib.par_run_lines(drv, [], mlines)
+    for c, o in zip(cases, impl):
+        f = fields(o)
+        mlines.append(line_of(c, f.get("val", " ".join(c["toks"]))))
+    model = [None] * len(cases)
+    ok, out, err = vlib.par_run_lines(drv, [], [mlines[i] for i in small])
     if not ok:
         ctx.tie_broken("extracted wire model crashed", err)
         return
-    for case, line, mline, li, lm in zip(cases, lines, mlines, impl, model):
-        api, ty, bo, prefix, toks, bad = case
-        t = wg.parse_ext(ty)
-        fi, fm = fields(li), fields(lm)
-        nontrivial = prefix > 0 or t[0] != "b" or t[1] in "sogh"
-        ctx.case(line, nontrivial=nontrivial,
-                 sample={"case": line[:200], "impl": li[:160], "model": lm[:200]} if (nontrivial and ctx.evaluations % 97 == 0) else None)
-        ctx.count("api:" + api)
+    for i, o in zip(small, out):
+        model[i] = o
+    cheap = [i for i in big if wg.model_cheap(cases[i]["op"][:2], cases[i]["bo"], cases[i]["toks"])]
+    ok, out, err = wg.run_each(drv, [mlines[i] for i in cheap], chunk=2)
+    if not ok:
+        ctx.tie_broken("extracted wire model crashed (big stream)", err)
+        return
+    for i, o in zip(cheap, out):
+        model[i] = o
+    # where the marshal model is too slow, the specification alone (SE: spec_enc and encodable at the position after the prefix)
+    spec_only = [i for i in big if model[i] is None]
+    ok, out, err = wg.run_each(drv, ["SE %s %d %s" % (cases[i]["bo"], cases[i]["prefix"], mlines[i].split(" ", 4 if cases[i]["op"] == "MT" else 3)[-1]) for i in spec_only], chunk=2)
+    if not ok:
+        ctx.tie_broken("extracted specification crashed (big stream)", err)
+        return
+    spec_of = dict(zip(spec_only, out))
+
+    classes = {}
+    for i, (c, line, mline, li) in enumerate(zip(cases, lines, mlines, impl)):
+        op, ty, bo, prefix, toks, bad, t = c["op"], c["ty"], c["bo"], c["prefix"], c["toks"], c["bad"], c["t"]
+        lm = model[i]
+        pre = bytes((k * 37 + 1) % 256 for k in range(prefix))
+        fi = fields(li)
+        if lm is not None:
+            fm = fields(lm)
+        else:
+            fs = fields("x " + spec_of[i])
+            fm = {"res": None, "encodable": fs["encodable"], "spec": (pre.hex() + (fs["spec"] if fs["spec"] != "-" else "")) or "-"}
+        nontrivial = prefix > 0 or t is None or t[0] != "b" or t[1] in "sogh"
+        canon = line if c["stream"] != "big" else (c["cls"], op, ty, bo, prefix, len(toks), hash(line))
+        ctx.case(canon, nontrivial=nontrivial,
+                 sample={"case": line[:200], "impl": li[:160], "model": (lm or "")[:200]} if (nontrivial and ctx.evaluations % 197 == 0) else None)
+        ctx.count("api:" + op)
         ctx.count("bo:" + bo)
         ctx.count("prefix%8=" + str(prefix % 8))
-        ctx.count("kind:" + t[0])
-        ctx.count("impl:" + fi["res"])
-        ctx.count("with_bad_leaf" if bad else "all_leaves_valid")
+        if t:
+            ctx.count("kind:" + t[0])
+        ctx.count("impl:" + fi["res"].lower())
+        if c["stream"] == "catalogue":
+            ctx.count("with_bad_leaf" if bad else "all_leaves_valid")
+            if op == "MT":
+                for fl in wg.flavours(ty):
+                    ctx.count("rust-flavour:" + fl)
+        else:
+            ctx.count(c["stream"] + ":" + c["cls"])
+            if lm is None:
+                ctx.count("big:model-skipped")
+        short = (lambda s: s if len(s) < 4000 else s[:4000] + " ...(%d characters; regenerate with the seed)" % len(s))
+        data = {"line": short(line), "model_line": short(mline), "impl": li[:3000], "model_and_spec": (lm or spec_of.get(i, ""))[:3000],
+                "stream": c["stream"], "class": c["cls"]}
         if fi["res"] in ("CRASH", "PANIC"):
             ctx.disagreements_checked += 1
-            ctx.violation("marshalling crashed the process or panicked (%s)" % li[:60], {"line": line, "model_line": mline, "impl": li, "model_and_spec": lm})
+            ctx.violation("marshalling crashed the process or panicked (%s)" % li[:60], data)
             continue
-        if fi["res"] not in ("ok", "err") or fm["res"] not in ("ok", "err"):
-            ctx.tie_broken("unexpected output", "%s\nimpl: %s\nmodel: %s" % (line, li, lm))
+        if fi["res"] not in ("ok", "err") or fm["res"] not in ("ok", "err", None):
+            ctx.tie_broken("unexpected output", "%s\nimpl: %s\nmodel: %s" % (line[:2000], li[:500], (lm or "")[:500]))
             continue
-        expect_sig = ("y" * prefix + wg.erased(t)).encode().hex()
+        expect_sig = c["sig"].encode().hex()
         # ---- the property, evaluated on the implementation's own output against the specification
         why = None
-        if fi["res"] == "ok":
+        inconsistent = False
+        if c["stream"] == "inconsistent":
+            tree, _ = wg.parse_tokens(toks, 0)
+            inconsistent = not wg.tree_consistent(tree)
+            classes.setdefault(c["cls"], [0, 0])[0 if inconsistent else 1] += 1
+        if inconsistent:
+            # the side condition of the dynamic API fails: the tree must be refused and leave no trace (the specification's
+            # encoder is defined on well-typed values only, so it is not consulted)
+            if fi["res"] == "ok":
+                why = "an inconsistent Param tree (%s) was marshalled instead of refused" % c["cls"]
+            elif fi.get("buf", "-") != (pre.hex() or "-"):
+                why = "a refused Param tree left bytes in the body"
+        elif fi["res"] == "ok":
+            if c["stream"] == "inconsistent":
+                expect_sig = ("y" * prefix + ("v" if op in VARIANT_OPS else wg.tree_sig(wg.parse_tokens(toks, 0)[0]))).encode().hex()
             if fm["encodable"] != "true":
                 why = "a value without a valid encoding was marshalled instead of refused"
             elif fi["buf"] != fm["spec"]:
@@ -118,28 +217,66 @@ def run(ctx):
         else:
             if fm["encodable"] == "true":
                 why = "an encodable value was refused"
-            elif fi.get("buf", "-") != (bytes((i * 37 + 1) % 256 for i in range(prefix)).hex() or "-"):
+            elif fi.get("buf", "-") != (pre.hex() or "-"):
                 why = "a refused value left bytes in the body"
-        agree = (fi["res"] == fm["res"]) and (fi["res"] != "ok" or (fi["buf"] == fm["buf"] and fi["nfds"] == fm["nfds"]))
+        if fi["res"] == "err" and why is None and fi.get("sig", "-") != (("y" * prefix).encode().hex() or "-"):
+            why = "a refused value left signature characters in the body"
+        agree = lm is None or ((fi["res"] == fm["res"]) and (fi["res"] != "ok" or (fi["buf"] == fm["buf"] and fi["nfds"] == fm["nfds"])))
         if why:
             ctx.disagreements_checked += 1
-            ctx.violation(why, {"line": line, "model_line": mline, "impl": li, "model_and_spec": lm})
+            ctx.violation(why, data)
         elif not agree:
             ctx.disagreements_checked += 1
             ctx.tie_broken("correspondence: marshal model and implementation differ although the specification is met",
-                           "%s\nimpl: %s\nmodel: %s" % (line, li, lm))
+                           "%s\nimpl: %s\nmodel: %s" % (line[:2000], li[:1000], lm[:1000]))
+    ctx.extra["inconsistent_stream"] = {k: {"inconsistent": v[0], "consistent": v[1]} for k, v in sorted(classes.items())}
+    ncat, nmo = len(wg.catalogue()), len(wg.catalogue_marshal_only())
+    ctx.rule = ("case = (API: typed push_param MT | dynamic push_old_param of an owned / borrowing / alternating Param tree MP, MPR, MPX | "
+                "params::Variant through the typed API MV, MVR, MVX; type; byte order; prefix length 0..15 made of preceding u8 parameters; value). "
+                "Stream 1: %d catalogue types + %d marshal-only 5-tuple types x %d values (each typed, every second also dynamic, some as a typed "
+                "params::Variant); values are boundary-biased (empty containers, min/max integers, NaNs, multi-byte UTF-8) and one in four has one "
+                "unencodable leaf. Stream 2 (big, %d cases): length fields >= 64 KiB, strings of 255..70000 bytes, 64..100 containers in one "
+                "array/dict, nesting at the limits. Stream 3 (inconsistent, %d cases): Param trees with a wrong declared element / key / value / "
+                "variant type, structs without fields, nesting beyond 64 (and exactly 64), bare and nested inside consistent trees, through every "
+                "flavour. non-trivial = the value contains a container or a text/descriptor leaf, or prefix > 0; distinct = distinct case lines"
+                % (ncat, nmo, n_per_type, len(big), sum(1 for c in cases if c["stream"] == "inconsistent")))
 
 
 def replay(ctx, body):
     d = body["data"]
     exe = vlib.harness_build(["wire"])["wire"]
     drv = vlib.ocaml_build("wire")
-    _, out, _ = vlib.run_lines(exe, [], [d["line"]])
-    _, mout, _ = vlib.run_lines(drv, [], [d["model_line"]])
-    print("case :", d["line"])
-    print("impl :", out[0])
-    print("spec :", mout[0])
-    fi, fm = fields(out[0]), fields(mout[0])
-    bad = (fi["res"] == "ok" and (fm["encodable"] != "true" or fi["buf"] != fm["spec"])) or (fi["res"] == "err" and fm["encodable"] == "true")
+    line, mline = d["line"], d["model_line"]
+    if "...(" in line:
+        head = line.split(" ...(")[0]
+        c2 = vlib.Ctx("C02", body.get("tier", "quick"), int(body["seed"]))
+        cands = [c for c in make_cases(c2, 60 if body.get("tier") == "thorough" else 16, body.get("tier") == "thorough")
+                 if c["stream"] == "big" and line_of(c).startswith(head)]
+        if not cands:
+            print("could not regenerate the case from the seed")
+            return 2
+        line = line_of(cands[0])
+        _, out, _ = vlib.run_lines(exe, [], [line])
+        mline = line_of(cands[0], fields(out[0]).get("val"))
+    _, out, _ = vlib.run_lines(exe, [], [line])
+    print("case :", line[:400])
+    print("impl :", out[0][:400])
+    fi = fields(out[0])
+    if d.get("stream") == "inconsistent" or fi["res"] in ("PANIC", "CRASH"):
+        toks = line.split(" ")[3:]
+        tree, _ = wg.parse_tokens(toks, 0)
+        bad = fi["res"] in ("PANIC", "CRASH") or (not wg.tree_consistent(tree) and fi["res"] == "ok")
+        print("REPRODUCED" if bad else "not reproduced")
+        return 1 if bad else 0
+    parts = mline.split(" ")
+    skip = 2 if parts[0] == "MT" else 1
+    se = "SE %s %s %s" % (parts[skip], parts[skip + 1], " ".join(parts[skip + 2:]))
+    _, mout, _ = vlib.run_lines(drv, [], [se])
+    print("spec :", mout[0][:400])
+    fm = fields("x " + mout[0])
+    prefix = int(parts[skip + 1])
+    pre = bytes((k * 37 + 1) % 256 for k in range(prefix)).hex()
+    spec = (pre + (fm["spec"] if fm["spec"] != "-" else "")) or "-"
+    bad = (fi["res"] == "ok" and (fm["encodable"] != "true" or fi["buf"] != spec)) or (fi["res"] == "err" and fm["encodable"] == "true")
     print("REPRODUCED" if bad else "not reproduced")
     return 1 if bad else 0
